@@ -78,13 +78,15 @@ ChainOK(alts, chain) ==
 (***************************************************************************)
 WhiteSpace == {32, 9, 10, 13}
 IsWS(b) == b \in WhiteSpace
-TokenStarts(raw) == {i \in DOMAIN raw : ~IsWS(raw[i]) /\ (i = 1 \/ IsWS(raw[i - 1]))}
-TokenEnd(raw, i) == CHOOSE j \in i..Len(raw) : /\ \A k \in i..j : ~IsWS(raw[k])
-                                               /\ (j = Len(raw) \/ IsWS(raw[j + 1]))
-PhoneTokens(raw) ==
-    LET st == TokenStarts(raw)
-        kth(k) == CHOOSE i \in st : Cardinality({j \in st : j < i}) = k - 1
-    IN [k \in 1..Cardinality(st) |-> SubSeq(raw, kth(k), TokenEnd(raw, kth(k)))]
+\* the last byte of the run of non-blank bytes that starts at i
+TokenEnd(raw, i) == CHOOSE j \in i..Len(raw) : /\ (j = Len(raw) \/ IsWS(raw[j + 1]))
+                                               /\ \A k \in i..j : ~IsWS(raw[k])
+\* the runs that start at or after byte i
+RECURSIVE TokensFrom(_, _)
+TokensFrom(raw, i) == IF i > Len(raw) THEN <<>>
+                      ELSE IF IsWS(raw[i]) THEN TokensFrom(raw, i + 1)
+                      ELSE LET e == TokenEnd(raw, i) IN <<SubSeq(raw, i, e)>> \o TokensFrom(raw, e + 1)
+PhoneTokens(raw) == TokensFrom(raw, 1)
 
 (***************************************************************************)
 (* "Usable immediately": a search reads, for the first and for the last    *)
